@@ -67,6 +67,48 @@ PICFD = {"A": "x:pic.A." + PATTR, "B": "x:pic.B." + PATTR}
 PICIN = "inpic {p} {id} pts_sys={t} pts_prog={t} duration=1080000"
 SNDIN = "insound {p} {id} 1024 pts_sys={t} pts_prog={t} duration=576000"
 
+# ---- well-formed payloads: what a pipe type needs in order to let a buffer through --------------
+def _hex(bs):
+    return "".join("%02x" % (b & 255) for b in bs)
+
+
+def ts_packet(nin, pid=100):
+    """one 188-octet TS packet, payload only, unit start, continuity counter following the input"""
+    return [0x47, 0x40 | (pid >> 8), pid & 255, 0x10 | (nin & 15)] + [(nin * 3 + i) % 0x40 for i in range(184)]
+
+
+def psi_section(nin, tid=0x40):
+    """a 20-octet private section (syntax indicator set; the CRC is not looked at by merge / split / join)"""
+    return [tid, 0xB0, 17] + [(nin * 5 + i) & 255 for i in range(17)]
+
+
+def ins_ts(T, nin):
+    return ["ins %s %s 1 id=%d" % (T["inp"], _hex(ts_packet(nin)), nin)]
+
+
+def ins_ts_pcr(T, nin):
+    return ["ins %s %s 1 id=%d cr_prog=%d" % (T["inp"], _hex(ts_packet(nin)), nin, T0 + 27000 * nin)]
+
+
+def ins_psi_payload(T, nin):          # what ts_decaps hands to the merger: pointer_field, section, stuffing
+    return ["ins %s %s 1 id=%d start" % (T["inp"], _hex([0] + psi_section(nin) + [0xFF] * 8), nin)]
+
+
+def ins_section(T, nin):
+    return ["ins %s %s 1 id=%d" % (T["inp"], _hex(psi_section(nin)), nin)]
+
+
+def ins_pes(T, nin):
+    pay = [(nin * 7 + i) & 255 for i in range(16)]
+    pes = [0, 0, 1, 0xE0, 0, 3 + 5 + len(pay), 0x80, 0x80, 5, 0x21, 0x00, 0x01, 0x00, 0x01] + pay
+    return ["ins %s %s 1 id=%d start" % (T["inp"], _hex(pes), nin)]
+
+
+def ins_h264(T, nin):
+    nal = [0, 0, 0, 1, 0x65] + [((nin * 11 + i) % 200) + 4 for i in range(40)]
+    return ["ins %s %s 1 id=%d pts_prog=%d dts_prog=%d" % (T["inp"], _hex(nal), nin, T0 + 100 * nin, T0 + 100 * nin)]
+
+
 TYPES = [
     # --- in the shared registry (harness/pipe_registry.c)
     typ("idem", "thru"),
@@ -111,7 +153,7 @@ TYPES = [
     typ("multicat_probe", "thru"),
     typ("dump", "thru"),
     typ("dtsdi"),
-    typ("rtp_h264", fd={"A": "bh264.A", "B": "bh264.B"}),
+    typ("rtp_h264", fd={"A": "bh264.A", "B": "bh264.B"}, incmd=ins_h264),
     typ("rtp_mpeg4", fd={"A": "baac.sound.A", "B": "baac.sound.B"}),
     typ("m3u_reader"),
     typ("aes_decrypt", "thru"),
@@ -147,22 +189,24 @@ TYPES = [
     typ("fsink", src=[M % "file_sink"], env=PUMP, dies=False),
     typ("udpsink", src=[M % "udp_sink", M % "udp"], env=PUMP, dies=False),
     typ("grid", data=False),
-    typ("ts_check", src=[TS % "ts_check"], fd=TSFD),
-    typ("ts_sync", src=[TS % "ts_sync"], fd=TSFD),
-    typ("ts_align", src=[TS % "ts_align"], fd=TSFD),
-    typ("ts_decaps", src=[TS % "ts_decaps"], fd=TSFD),
-    typ("ts_psi_merge", src=[TS % "ts_psi_merge"], fd={"A": "bmpegtspsi.A", "B": "bmpegtspsi.B"}),
+    typ("ts_check", src=[TS % "ts_check"], fd=TSFD, incmd=ins_ts),
+    typ("ts_sync", src=[TS % "ts_sync"], fd=TSFD, incmd=ins_ts),
+    typ("ts_align", src=[TS % "ts_align"], fd=TSFD, incmd=ins_ts),
+    typ("ts_decaps", src=[TS % "ts_decaps"], fd=TSFD, incmd=ins_ts),
+    typ("ts_psi_merge", src=[TS % "ts_psi_merge"], fd={"A": "bmpegtspsi.A", "B": "bmpegtspsi.B"}, incmd=ins_psi_payload),
     typ("ts_psi_split", src=[TS % "ts_psi_split"], fd={"A": "bmpegtspsi.A", "B": "bmpegtspsi.B"},
-        alloc=["new p0 ts_psi_split", "subf p1 p0 bmpegtspsi.sub"], outp="p1", rel=["p1", "p0"]),
+        alloc=["new p0 ts_psi_split", "subfx p1 p0 block.mpegtspsi.sub. psi_filter=40:ff"], outp="p1", rel=["p1", "p0"],
+        incmd=ins_section),
     typ("ts_psi_join", src=[TS % "ts_psi_join"], alloc=["newf p0 ts_psi_join block.mpegtspsi.", "sub p1 p0"],
-        fdp="p1", inp="p1", rel=["p1", "p0"], fd={"A": "bmpegtspsi.A", "B": "bmpegtspsi.B"}),
-    typ("ts_pid_filter", src=[TS % "ts_pid_filter"], fd=TSFD),
-    typ("ts_split", src=[TS % "ts_split"], fd=TSFD, alloc=["new p0 ts_split", "subf p1 p0 bmpegts.sub"],
-        outp="p1", rel=["p1", "p0"]),
-    typ("ts_pes_decaps", src=[TS % "ts_pes_decaps"], fd={"A": "bmpegtspes.A", "B": "bmpegtspes.B"}),
+        fdp="p1", inp="p1", rel=["p1", "p0"], fd={"A": "bmpegtspsi.A", "B": "bmpegtspsi.B"}, incmd=ins_section),
+    typ("ts_pid_filter", src=[TS % "ts_pid_filter"], fd=TSFD, alloc=["new p0 ts_pid_filter", "opt p0 set add_pid 100"],
+        incmd=ins_ts),
+    typ("ts_split", src=[TS % "ts_split"], fd=TSFD, alloc=["new p0 ts_split", "subfx p1 p0 block.mpegts.sub. pid=100"],
+        outp="p1", rel=["p1", "p0"], incmd=ins_ts),
+    typ("ts_pes_decaps", src=[TS % "ts_pes_decaps"], fd={"A": "bmpegtspes.A", "B": "bmpegtspes.B"}, incmd=ins_pes),
     typ("ts_pes_encaps", src=[TS % "ts_pes_encaps"], fd={"A": "x:block.A. pes_id=224", "B": "x:block.B. pes_id=224"},
         dies=False),
-    typ("ts_pcr_interpolator", src=[TS % "ts_pcr_interpolator"], fd=TSFD),
+    typ("ts_pcr_interpolator", src=[TS % "ts_pcr_interpolator"], fd=TSFD, incmd=ins_ts_pcr),
     typ("ts_tstd", src=[TS % "ts_tstd"], data=False),
     typ("opus_framer", src=[FR % "opus_framer", FR % "framers_common"], fd={"A": "bopus.A", "B": "bopus.B"}),
     typ("s302_framer", src=[FR % "s302_framer"], fd={"A": "bs302m.sound.A", "B": "bs302m.sound.B"}),
@@ -293,6 +337,8 @@ T0 = 2700000000      # 100 s: well above the retention spans of the *cont pipes
 
 
 def in_lines(T, nin):
+    if callable(T["incmd"]):
+        return T["incmd"](T, nin)
     cmds = T["incmd"] if isinstance(T["incmd"], (list, tuple)) else [T["incmd"]]
     return [c.format(p=T["inp"], id=nin, size=T["size"], t=T0 + 100 * nin, tm=T0 + 100 * (nin - 1)) for c in cmds]
 
@@ -324,6 +370,9 @@ def concretise(T, steps):
         elif e == "SetFd":
             new = [setfd_line(T, c["fd"])]
             fd_ok = True
+            if T["cls"] != "thru" and i % 2:
+                # every other time the sinks answer at once what the new flow definition made the pipe ask for
+                new += ["provall s1", "provall s2"]
         elif e == "OptFd":
             if not T["optfd"]:
                 return None
@@ -335,7 +384,8 @@ def concretise(T, steps):
         elif e == "Flush":
             new = ["flush %s" % T["inp"]]
         elif e == "Loop":
-            new = ["loop 4"]
+            # (the sinks also answer what was asked of them: managers, clocks)
+            new = ["loop 4"] if T["cls"] == "thru" else ["provall s1", "provall s2", "loop 4"]
         elif e == "In":
             if T["cls"] != "thru" and (not fd_ok or not T["data"]):
                 return None     # an upstream that obeys the statement never does this
@@ -854,6 +904,8 @@ def random_script(rng, T, n):
         if r < 14:
             lines.append(setfd_line(T, rng.choice(["A", "B"])))
             fd_ok = True
+            if T["cls"] != "thru" and rng.chance(1, 2):
+                lines += ["provall s%d" % k for k in live_sinks]
         elif r < 50:
             if fd_ok and (T["data"] or T["cls"] == "thru"):
                 for _ in range(1 + rng.below(3)):
@@ -873,6 +925,8 @@ def random_script(rng, T, n):
         elif r < 83:
             lines.append("getfd %s" % T["outp"])
         elif r < 86:
+            if T["cls"] != "thru" and rng.chance(1, 2):
+                lines.append("provall s%d" % rng.choice(live_sinks))
             lines.append("loop %d" % (1 + rng.below(4)))
         elif r < 90:
             lines.append("flush %s" % T["inp"])
